@@ -6,6 +6,7 @@ package main
 
 import (
 	"bytes"
+	"context"
 	"encoding/json"
 	"fmt"
 	"os"
@@ -14,6 +15,7 @@ import (
 	"sort"
 	"strings"
 	"syscall"
+	"time"
 
 	"github.com/kevin-hanselman/dud/src/artifact"
 	"github.com/kevin-hanselman/dud/src/stage"
@@ -190,6 +192,9 @@ type Project struct {
 	StageFs    []string // stage file paths relative to Root
 	Env        []string
 	lastRunlog []byte
+	ExtraEnv   []string      // added to every dud invocation (pool sizes, GOMAXPROCS)
+	Timeout    time.Duration // watchdog; 0 = 5 minutes
+	Hung       bool          // the last invocation was killed by the watchdog
 }
 
 func newProject(o *opts, base string, cacheLoc string) *Project {
@@ -220,13 +225,23 @@ type runRes struct {
 }
 
 func (p *Project) dud(cwdRel string, args ...string) runRes {
-	cmd := exec.Command(p.Dud, args...)
+	to := p.Timeout
+	if to == 0 {
+		to = 5 * time.Minute
+	}
+	ctx, cancel := context.WithTimeout(context.Background(), to)
+	defer cancel()
+	cmd := exec.CommandContext(ctx, p.Dud, args...)
 	cmd.Dir = filepath.Join(p.Root, cwdRel)
-	cmd.Env = p.Env
+	cmd.Env = append(append([]string{}, p.Env...), p.ExtraEnv...)
 	var so, se bytes.Buffer
 	cmd.Stdout, cmd.Stderr = &so, &se
 	err := cmd.Run()
 	rc := 0
+	p.Hung = ctx.Err() == context.DeadlineExceeded
+	if p.Hung {
+		return runRes{124, so.String(), se.String() + "\nWATCHDOG: killed after " + to.String()}
+	}
 	if err != nil {
 		if ee, ok := err.(*exec.ExitError); ok {
 			rc = ee.ExitCode()
@@ -642,7 +657,11 @@ func (p *Project) do(c Cmd, sems []CmdSem, specs []int, ref *Node, pre *World) (
 	}
 	res := p.dud(c.Cwd, c.argv()...)
 	post := p.observe()
-	t := &Transition{Sems: sems, Pre: pre, Cmd: c, OK: res.Exit == 0, Post: post, Ref: ref, Specs: specs, Res: res,
+	var obs []int
+	if p.Hung {
+		obs = append(obs, 3)
+	}
+	t := &Transition{Sems: sems, Pre: pre, Cmd: c, OK: res.Exit == 0, Post: post, Ref: ref, Specs: specs, Res: res, Obs: obs,
 		Info: map[string]interface{}{"cmd": strings.Join(append([]string{"dud"}, c.argv()...), " "), "cwd": c.Cwd, "exit": res.Exit}}
 	if res.Exit != 0 {
 		e := strings.TrimSpace(res.Stderr)
